@@ -551,7 +551,7 @@ def run(prop: str, tier: str) -> int:
         "every payload-dependent branch and the final query 'exists payloads, assignment: defined(before), defined(after), "
         "before != after' (C01) / 'solution sets differ' or 'a new divisor can be 0' (C02). states = feasible paths, "
         "transitions = solver-decided branch decisions.")
-    budget = 420 if tier == "quick" else 3000
+    budget = 420 if tier == "quick" else 720
     rnd = random.Random(seed())
     rnd.shuffle(sks)
     use_grid("quick" if tier == "quick" else "full")
